@@ -158,6 +158,31 @@ Section Dens.
     let xi := s2c (u1 * (ntwo * pi)) (vmf_theta kappa norm u2) in
     c2s (matvec (rotmat mu) xi).
 
+  (** ** NestedTransdimensional._logpdf: index-jump term, birth terms only when the dimension grows and
+      only for the newly active components, in-model terms for components active on both sides.
+      [cur]/[prop]: active sets of the conditioning point and of the evaluated point;
+      [births], [inmodel]: per component, the birth log-density of the evaluated point's values
+      and the in-model log-density (None = -inf). *)
+  Fixpoint td_terms (dk_pos : bool) (cur prop : list bool) (births inmodel : list (option T)) : list (option T) :=
+    match cur, prop, births, inmodel with
+    | c :: cur', p :: prop', b :: births', m :: inmodel' =>
+        let rest := td_terms dk_pos cur' prop' births' inmodel' in
+        if negb c && p && dk_pos then b :: rest else rest
+    | _, _, _, _ => []
+    end.
+  Fixpoint td_inmodel (cur prop : list bool) (inmodel : list (option T)) : list (option T) :=
+    match cur, prop, inmodel with
+    | c :: cur', p :: prop', m :: inmodel' =>
+        let rest := td_inmodel cur' prop' inmodel' in if c && p then m :: rest else rest
+    | _, _, _ => []
+    end.
+  Definition td_logpdf (index_term : option T) (dk : Z) (cur prop : list bool) (births inmodel : list (option T)) : option T :=
+    match index_term with
+    | None => None
+    | Some it =>
+        sum_opt (td_terms (0 <? dk)%Z cur prop births inmodel ++ td_inmodel cur prop inmodel) (nzero + it)
+    end.
+
   (** ** birth distributions *)
   Definition ubirth_logpdf1 (lo hi x : T) : option T :=
     if nltb x lo || nltb hi x then None else Some (- nln (hi - lo)).     (* scipy uniform(loc, scale).logpdf *)
